@@ -130,8 +130,8 @@ theorem C01_exactly_once (st : List Cb) : (runOrder st).Perm (allCbs st) := by
 
 /-- Strict LIFO with pass_exception: the sequence of callback invocations is `runOrder`, and
 each one receives the block's exception iff it was registered with pass_exception. -/
-theorem C01_lifo_and_argument (cid : CtxId) (be : BlockEnd) (st : List Cb) (x : Ctx) :
-    startsOf (runTeardown cid be st x).2.1 =
+theorem C01_lifo_and_argument (cid : CtxId) (cur : Option CtxId) (be : BlockEnd) (st : List Cb) (x : Ctx) :
+    startsOf (runTeardown cid cur be st x).2.1 =
       (runOrder st).map fun cb => (cb.id, if cb.passExc then some be.exc else none) := by
   induction st using stack_induction generalizing x with
   | nil => rw [runTeardown_nil, runOrder_nil]; rfl
@@ -140,8 +140,8 @@ theorem C01_lifo_and_argument (cid : CtxId) (be : BlockEnd) (st : List Cb) (x : 
     exact startsOf_frame _ _ _ _ _
 
 /-- Every callback runs to completion, whether it raises or not … -/
-theorem C01_all_finish (cid : CtxId) (be : BlockEnd) (st : List Cb) (x : Ctx) :
-    endsOf (runTeardown cid be st x).2.1 = (runOrder st).map fun cb => (cb.id, cb.raises) := by
+theorem C01_all_finish (cid : CtxId) (cur : Option CtxId) (be : BlockEnd) (st : List Cb) (x : Ctx) :
+    endsOf (runTeardown cid cur be st x).2.1 = (runOrder st).map fun cb => (cb.id, cb.raises) := by
   induction st using stack_induction generalizing x with
   | nil => rw [runTeardown_nil, runOrder_nil]; rfl
   | cons id p a b regs r stack ih =>
@@ -149,8 +149,8 @@ theorem C01_all_finish (cid : CtxId) (be : BlockEnd) (st : List Cb) (x : Ctx) :
     exact endsOf_frame _ _ _ _ _
 
 /-- … one at a time. -/
-theorem C01_one_at_a_time (cid : CtxId) (be : BlockEnd) (st : List Cb) (x : Ctx) :
-    bracketed (runTeardown cid be st x).2.1 = true := by
+theorem C01_one_at_a_time (cid : CtxId) (cur : Option CtxId) (be : BlockEnd) (st : List Cb) (x : Ctx) :
+    bracketed (runTeardown cid cur be st x).2.1 = true := by
   induction st using stack_induction generalizing x with
   | nil => rw [runTeardown_nil]; rfl
   | cons id p a b regs r stack ih =>
@@ -159,8 +159,8 @@ theorem C01_one_at_a_time (cid : CtxId) (be : BlockEnd) (st : List Cb) (x : Ctx)
 
 /-- Every exception raised by a callback (of any class) is collected, in order; a raising
 callback never prevents the remaining ones from running (C01_all_finish). -/
-theorem C01_all_collected (cid : CtxId) (be : BlockEnd) (st : List Cb) (x : Ctx) :
-    (runTeardown cid be st x).2.2 = (runOrder st).filterMap Cb.raises := by
+theorem C01_all_collected (cid : CtxId) (cur : Option CtxId) (be : BlockEnd) (st : List Cb) (x : Ctx) :
+    (runTeardown cid cur be st x).2.2 = (runOrder st).filterMap Cb.raises := by
   induction st using stack_induction generalizing x with
   | nil => rw [runTeardown_nil, runOrder_nil]; rfl
   | cons id p a b regs r stack ih =>
@@ -171,11 +171,11 @@ theorem C01_all_collected (cid : CtxId) (be : BlockEnd) (st : List Cb) (x : Ctx)
 
 /-- Teardown does not change the lifecycle state, the parent, the open children or the
 reset token of the context (bodies only add resources / factories). -/
-theorem C01_frame (cid : CtxId) (be : BlockEnd) (st : List Cb) (x : Ctx) :
-    let x' := (runTeardown cid be st x).1
+theorem C01_frame (cid : CtxId) (cur : Option CtxId) (be : BlockEnd) (st : List Cb) (x : Ctx) :
+    let x' := (runTeardown cid cur be st x).1
     x'.state = x.state ∧ x'.parent = x.parent ∧ x'.children = x.children ∧ x'.token = x.token ∧
       x'.tds = x.tds := by
-  exact runTeardown_frame cid be st x
+  exact runTeardown_frame cid cur be st x
 
 /-- All registration routes land on the same stack: `add_resource(teardown_callback=)` … -/
 theorem C01_route_add (cid : CtxId) (x : Ctx) (a : AddArgs) (cb : Cb) (e : REvent)
@@ -198,13 +198,13 @@ closed, then the outcome. If any callback raised: one group with exactly the col
 exceptions, whatever the block's own outcome was. -/
 theorem C01_outcome_group (w : World) (t : TaskId) (c : CtxId) (be : BlockEnd) (x : Ctx)
     (hx : w.ctx? c = some x) (hs : x.state = .opened)
-    (hne : (runTeardown c be (effStack be x.tds) { x with state := .closing, tds := [] }).2.2 ≠ []) :
+    (hne : (runTeardown c (w.curOf t) be (effStack be x.tds) { x with state := .closing, tds := [] }).2.2 ≠ []) :
     (step w (.exit t c be)).2 =
-      (runTeardown c be (effStack be x.tds) { x with state := .closing, tds := [] }).2.1 ++
-        [.closed, .exitGroup (runTeardown c be (effStack be x.tds) { x with state := .closing, tds := [] }).2.2] := by
+      (runTeardown c (w.curOf t) be (effStack be x.tds) { x with state := .closing, tds := [] }).2.1 ++
+        [.closed, .exitGroup (runTeardown c (w.curOf t) be (effStack be x.tds) { x with state := .closing, tds := [] }).2.2] := by
   rw [step_exit w t c be x hx hs]
-  have hne' : (runTeardown c be (effStack be x.tds) { x with state := .closing, tds := [] }).2.2.isEmpty = false := by
-    cases h : (runTeardown c be (effStack be x.tds) { x with state := .closing, tds := [] }).2.2 with
+  have hne' : (runTeardown c (w.curOf t) be (effStack be x.tds) { x with state := .closing, tds := [] }).2.2.isEmpty = false := by
+    cases h : (runTeardown c (w.curOf t) be (effStack be x.tds) { x with state := .closing, tds := [] }).2.2 with
     | nil => exact absurd h hne
     | cons e es => rfl
   simp only [exitOutcome, hne', Bool.not_false, if_true]
@@ -213,9 +213,9 @@ theorem C01_outcome_group (w : World) (t : TaskId) (c : CtxId) (be : BlockEnd) (
 block's own outcome: a normal exit … -/
 theorem C01_outcome_normal (w : World) (t : TaskId) (c : CtxId) (x : Ctx)
     (hx : w.ctx? c = some x) (hs : x.state = .opened) (hch : x.children = [])
-    (hnone : (runTeardown c .ret x.tds { x with state := .closing, tds := [] }).2.2 = []) :
+    (hnone : (runTeardown c (w.curOf t) .ret x.tds { x with state := .closing, tds := [] }).2.2 = []) :
     (step w (.exit t c .ret)).2 =
-      (runTeardown c .ret x.tds { x with state := .closing, tds := [] }).2.1 ++ [.closed, .exitNormal] := by
+      (runTeardown c (w.curOf t) .ret x.tds { x with state := .closing, tds := [] }).2.1 ++ [.closed, .exitNormal] := by
   rw [step_exit w t c .ret x hx hs, effStack_of_not_cancel .ret x.tds rfl, hnone, hch]
   rfl
 
@@ -223,9 +223,9 @@ theorem C01_outcome_normal (w : World) (t : TaskId) (c : CtxId) (x : Ctx)
 ordinary `Exception`, for root and non-root contexts alike. -/
 theorem C01_outcome_own (w : World) (t : TaskId) (c : CtxId) (n : Nat) (x : Ctx)
     (hx : w.ctx? c = some x) (hs : x.state = .opened) (hch : x.children = [])
-    (hnone : (runTeardown c (.raised (.exn n)) x.tds { x with state := .closing, tds := [] }).2.2 = []) :
+    (hnone : (runTeardown c (w.curOf t) (.raised (.exn n)) x.tds { x with state := .closing, tds := [] }).2.2 = []) :
     (step w (.exit t c (.raised (.exn n)))).2 =
-      (runTeardown c (.raised (.exn n)) x.tds { x with state := .closing, tds := [] }).2.1 ++
+      (runTeardown c (w.curOf t) (.raised (.exn n)) x.tds { x with state := .closing, tds := [] }).2.1 ++
         [.closed, .exitOwn (.exn n) false] := by
   rw [step_exit w t c _ x hx hs, effStack_of_not_cancel (.raised (.exn n)) x.tds rfl, hnone, hch]
   simp [exitOutcome]
@@ -233,10 +233,10 @@ theorem C01_outcome_own (w : World) (t : TaskId) (c : CtxId) (n : Nat) (x : Ctx)
 /-- … or, after a cancellation, the cancellation itself. -/
 theorem C01_outcome_cancelled (w : World) (t : TaskId) (c : CtxId) (x : Ctx)
     (hx : w.ctx? c = some x) (hs : x.state = .opened) (hch : x.children = [])
-    (hnone : (runTeardown c (.raised .cancelled) (effStack (.raised .cancelled) x.tds)
+    (hnone : (runTeardown c (w.curOf t) (.raised .cancelled) (effStack (.raised .cancelled) x.tds)
       { x with state := .closing, tds := [] }).2.2 = []) :
     (step w (.exit t c (.raised .cancelled))).2 =
-      (runTeardown c (.raised .cancelled) (effStack (.raised .cancelled) x.tds)
+      (runTeardown c (w.curOf t) (.raised .cancelled) (effStack (.raised .cancelled) x.tds)
           { x with state := .closing, tds := [] }).2.1 ++
         [.closed, .exitOwn .cancelled x.parent.isNone] := by
   rw [step_exit w t c _ x hx hs, hnone, hch]
@@ -274,10 +274,10 @@ theorem C01_cancel_lifo (be : BlockEnd) (st : List Cb) :
   runOrder_runsLike.effStack_sublist be st
 
 /-- … and the cancellation of every asynchronous one is collected like any other exception. -/
-theorem C01_cancel_collected (cid : CtxId) (st : List Cb) (x : Ctx) (cb : Cb) (hm : cb ∈ st)
+theorem C01_cancel_collected (cid : CtxId) (cur : Option CtxId) (st : List Cb) (x : Ctx) (cb : Cb) (hm : cb ∈ st)
     (ha : cb.isAsync = true) :
-    Exc.cancelled ∈ (runTeardown cid (.raised .cancelled) (effStack (.raised .cancelled) st) x).2.2 :=
-  Cn.cancelled_collected cid st x cb hm ha
+    Exc.cancelled ∈ (runTeardown cid cur (.raised .cancelled) (effStack (.raised .cancelled) st) x).2.2 :=
+  Cn.cancelled_collected cid cur st x cb hm ha
 
 /-- Afterwards the context is closed and its callback stack is empty — even if teardown raised. -/
 theorem C01_closed_afterwards (w : World) (t : TaskId) (c : CtxId) (be : BlockEnd) (x : Ctx)
@@ -288,7 +288,7 @@ theorem C01_closed_afterwards (w : World) (t : TaskId) (c : CtxId) (be : BlockEn
     ((ctx?_setCur _ t (x.token.getD none) c).trans (ctx?_setCtx_same w c _))
   refine ⟨x', h1, h2, ?_⟩
   rw [h3]
-  exact (runTeardown_frame c be (effStack be x.tds) _).2.2.2.2
+  exact (runTeardown_frame c (w.curOf t) be (effStack be x.tds) _).2.2.2.2
 
 /-- Non-vacuity (probe p5 of DESIGN.md, observed identically on both back-ends): four
 callbacks, #2 raises an Exception, #3 registers #31 which raises a BaseException, the block
